@@ -83,12 +83,12 @@ func mustAny(m proto.Message) *anypb.Any {
 }
 
 func init() {
-	detailAny['r'] = mustAny(&errdetails.ErrorInfo{Reason: "R", Domain: "d.example"})                     // resolvable
-	detailAny['q'] = mustAny(&errdetails.ResourceInfo{ResourceType: "t", ResourceName: "n", Owner: "o"})  // resolvable
-	detailAny['u'] = mustAny(&errdetails.RetryInfo{RetryDelay: durationpb.New(3_000_000_000)})            // type unknown to the target
-	detailAny['m'] = &anypb.Any{TypeUrl: detailAny['r'].TypeUrl, Value: []byte{0xff, 0xff, 0xff}}         // known type, malformed value
-	detailAny['e'] = &anypb.Any{TypeUrl: "", Value: []byte{1}}                                            // value without a type URL
-	detailAny['b'] = &anypb.Any{TypeUrl: "garbage", Value: nil}                                           // type URL that names nothing
+	detailAny['r'] = mustAny(&errdetails.ErrorInfo{Reason: "R", Domain: "d.example"})                    // resolvable
+	detailAny['q'] = mustAny(&errdetails.ResourceInfo{ResourceType: "t", ResourceName: "n", Owner: "o"}) // resolvable
+	detailAny['u'] = mustAny(&errdetails.RetryInfo{RetryDelay: durationpb.New(3_000_000_000)})           // type unknown to the target
+	detailAny['m'] = &anypb.Any{TypeUrl: detailAny['r'].TypeUrl, Value: []byte{0xff, 0xff, 0xff}}        // known type, malformed value
+	detailAny['e'] = &anypb.Any{TypeUrl: "", Value: []byte{1}}                                           // value without a type URL
+	detailAny['b'] = &anypb.Any{TypeUrl: "garbage", Value: nil}                                          // type URL that names nothing
 	if err := targetTypes.RegisterMessage((&errdetails.ErrorInfo{}).ProtoReflect().Type()); err != nil {
 		panic(err)
 	}
@@ -662,7 +662,7 @@ func (Area) Exec(input string) string {
 		err := parseErr(f[1])
 		st, hs := webbridge.VerifErrorStatus(err)
 		return fmt.Sprintf("%d %s %s %d", int(st.Code()), common.HexS(st.Message()), lettersOf(statusDetails(st)), hs)
-	case "e2e", "opts":
+	case "e2e", "opts", "strag":
 		return execIsolated(input) // in a worker subprocess: a runtime fatal error becomes "CRASH …", not a dead harness
 	}
 	return "BADOP"
@@ -706,6 +706,7 @@ func execE2E(sc *scenario) string {
 
 	var res *http.Response
 	var body []byte
+	late := 0
 	if sc.srv && !sc.gone {
 		// the same request over TCP through net/http's server and client (no client-side cancellation here)
 		srv := httptest.NewServer(bridge)
@@ -728,13 +729,15 @@ func execE2E(sc *scenario) string {
 		}
 	} else {
 		baseline := runtime.NumGoroutine()
-		w := httptest.NewRecorder()
-		bridge.ServeHTTP(w, req)
+		lw := &lateWriter{rec: httptest.NewRecorder()}
+		bridge.ServeHTTP(lw, req)
+		lw.markReturned()
 		// goroutines the bridge left behind (withCtx) must be done before the recorder is read
 		if !quiesce(baseline) {
 			return "HANG " + common.HexS("goroutines started by the handler are still running after it returned")
 		}
-		res = w.Result()
+		late = int(lw.late.Load())
+		res = lw.rec.Result()
 		body, _ = io.ReadAll(res.Body)
 	}
 	ctVals, ctPresent := res.Header["Content-Type"]
@@ -782,7 +785,7 @@ func execE2E(sc *scenario) string {
 	rec.mu.Unlock()
 
 	skip := map[string]bool{"Content-Type": true, "X-Content-Type-Options": true}
-	return fmt.Sprintf("st=%d ct=%s xcto=%s body=%s ds=%s dm=%s hdr=%s trl=%s pm=%s fe=%s nat=%s tr=%s u8=%s",
+	return fmt.Sprintf("st=%d ct=%s xcto=%s body=%s ds=%s dm=%s hdr=%s trl=%s pm=%s fe=%s nat=%s tr=%s u8=%s late="+strconv.Itoa(late),
 		res.StatusCode, hexOrDash(ctVals, ctPresent), hexOrDash(xcto, xctoPresent), common.Hex(body), ds, dm,
 		headerMap(res.Header, skip), headerMap(res.Trailer, nil), pm, describeErr(rec.finalErr), nat, tr, utf8Flag(rec.finalErr))
 }
@@ -872,10 +875,10 @@ func (m mdSpec) String() string {
 var noMD = mdSpec{}
 
 var stdMD = mdSpec{
-	hdr:  [][2]string{{"x-req-id", "abc"}, {"x-secret", "s3cr3t"}, {"x-multi", "1"}, {"x-multi", "2"}},
-	trl:  [][2]string{{"x-cost", "42"}, {"x-internal", "no"}, {"x-req-id", "from-trailer"}},
-	allH: []string{"X-Req-Id", "x-multi", "x-absent"},
-	allT: []string{"x-cost", "x-req-id"},
+	hdr:   [][2]string{{"x-req-id", "abc"}, {"x-secret", "s3cr3t"}, {"x-multi", "1"}, {"x-multi", "2"}},
+	trl:   [][2]string{{"x-cost", "42"}, {"x-internal", "no"}, {"x-req-id", "from-trailer"}},
+	allH:  []string{"X-Req-Id", "x-multi", "x-absent"},
+	allT:  []string{"x-cost", "x-req-id"},
 	prefH: "", prefT: "Grpc-Trailer-",
 }
 
@@ -981,6 +984,13 @@ var explicitCodes = []int{200, 400, 405, 413, 415, 418, 429, 451, 499, 500, 503,
 
 func (Area) Gen(r *rand.Rand, tier string, emit func(string)) {
 	count := func(k string) { genStats[k]++ }
+	// 0a. abandoned sends (D21): blocking ResponseWriter + deadline
+	genStrag(emit, count)
+	if raceBuild {
+		genRaceSubset(emit, count)
+		return
+	}
+
 	// 0. the root constructor's option plumbing (finite, run completely every time)
 	genOpts(emit, count)
 
@@ -1051,8 +1061,8 @@ func (Area) Gen(r *rand.Rand, tier string, emit func(string)) {
 			emit(line{rpc: "u", inj: "none", ct: cc.ct, acc: cc.acc, n: 1, ra: "the name", rb: "the \"owner\"", rbp: rbp, md: stdMD}.String())
 			count("e2e.success")
 		}
-		emit(line{rpc: "u", inj: "none", ct: cc.ct, acc: cc.acc, n: 0, md: stdMD}.String())                        // EOF without a response
-		emit(line{rpc: "u", inj: "none", ct: cc.ct, acc: cc.acc, n: 2, ra: "first", rb: "x", md: stdMD}.String())  // misbehaving target: two responses
+		emit(line{rpc: "u", inj: "none", ct: cc.ct, acc: cc.acc, n: 0, md: stdMD}.String())                       // EOF without a response
+		emit(line{rpc: "u", inj: "none", ct: cc.ct, acc: cc.acc, n: 2, ra: "first", rb: "x", md: stdMD}.String()) // misbehaving target: two responses
 		emit(line{rpc: "u", inj: "none", ct: cc.ct, acc: cc.acc, n: 1, body: "bad{"}.String())                    // malformed body
 		emit(line{rpc: "u", inj: "none", ct: cc.ct, acc: cc.acc, n: 1, body: "{\"owner\":1}"}.String())           // type mismatch in body
 		emit(line{rpc: "u", inj: "none", ct: cc.ct, acc: cc.acc, n: 1, body: "{\"owner\":\"me\"}", ra: "r"}.String())
@@ -1157,6 +1167,31 @@ func (Area) Gen(r *rand.Rand, tier string, emit func(string)) {
 		}
 		emit(l.String())
 		count("e2e.random." + l.inj)
+	}
+}
+
+// genRaceSubset: what the -race build runs besides the strag cases: client gone and deadline at every origin, message
+// first then failure, and one pass over the origins.
+func genRaceSubset(emit func(string), count func(string)) {
+	for _, cc := range ctCases[:3] {
+		for _, origin := range injOrigins {
+			emit(line{rpc: "u", inj: origin, err: sErr(5, "gone", "u"), gone: true, ct: cc.ct, acc: cc.acc}.String())
+			emit(line{rpc: "u", inj: origin, err: sErr(9, "plain failure", "r"), ct: cc.ct, acc: cc.acc, md: stdMD}.String())
+		}
+		for _, n := range []int{0, 1} {
+			emit(line{rpc: "u", inj: "target", err: sErr(7, "late", "-"), gone: true, n: n, ct: cc.ct, acc: cc.acc, md: stdMD}.String())
+			emit(line{rpc: "u", inj: "target", err: sErr(7, "late", "-"), n: n, ct: cc.ct, acc: cc.acc, md: stdMD}.String())
+			for _, tmo := range []string{"1n", "1m"} {
+				emit(line{rpc: "u", inj: "deadline", ct: cc.ct, acc: cc.acc, tmo: tmo, n: n}.String())
+				if n == 0 { // after a streamed message the outcome depends on who is faster (both are sequential readings): strag covers it
+					emit(line{rpc: "s", inj: "deadline", ct: cc.ct, acc: cc.acc, tmo: tmo, n: n}.String())
+				}
+			}
+		}
+		emit(line{rpc: "u", inj: "none", ct: cc.ct, acc: cc.acc, n: 1, ra: "a", rb: "b", md: stdMD}.String())
+		emit(line{rpc: "s", inj: "none", ct: cc.ct, acc: cc.acc, n: 3, ra: "a", rb: "b", md: stdMD}.String())
+		emit(line{rpc: "s", inj: "target", err: sErr(13, "late", "-"), ct: cc.ct, acc: cc.acc, n: 2, md: stdMD}.String())
+		count("e2e.race")
 	}
 }
 
